@@ -125,7 +125,7 @@ class Gen:
     def callable_routines(self):
         names = [n for n, (params, ret) in self.routines.items()
                  if ret and n != self.current_routine]
-        return names + (['round', 'floor', 'ceil', 'trunc', 'cycle'] if self.feature('builtins') else [])
+        return names + (['round', 'floor', 'ceil', 'trunc', 'cycle', 'random'] if self.feature('builtins') else [])
 
     def nothing_call(self):
         """[nothing]: a call that delivers None (only meaningful as an argument or in an
@@ -135,6 +135,12 @@ class Gen:
     def call_expr(self, depth):
         r = self.rng
         f = r.choice(self.callable_routines())
+        if f == 'random':
+            # integer bounds; one call in seven with an empty range (min > max): a run-time error of
+            # the script that must end the run, not be swallowed
+            a, b = r.randint(-5, 10), r.randint(-5, 10)
+            lo, hi = (min(a, b), max(a, b)) if r.random() < 0.85 or a == b else (max(a, b), min(a, b))
+            return ('call', 'random', [('num', lo), ('num', hi)])
         if f in ('round', 'floor', 'ceil', 'trunc', 'cycle'):
             params = ['x']
         else:
